@@ -204,6 +204,14 @@ def clone (h : Heap) (v : Val) (pre : String) : Heap × Val :=
     | none => (h, .nilIface)
   | _ => (h, .nilIface)
 
+/-- element `i` of `WrappedErrors()` used as a value of its own: a detached copy (`next = nil`) in a fresh cell -/
+def elem (h : Heap) (v : Val) (i : Nat) : Heap × Val :=
+  match v with
+  | .ref id => match (wrappedErrors h id)[i]? with
+    | some n => (h.push n, .ref h.size)
+    | none => (h, .nilIface)
+  | _ => (h, .nilIface)
+
 /-- the heap invariant as a Boolean: links point forward, stay inside the heap and never reach an empty node
     (`Lemmas/Errs.lean` proves `wfb h = true → WF h`); the model driver evaluates it on every heap it builds -/
 def wfb (h : Heap) : Bool :=
